@@ -604,7 +604,9 @@ func parseType(ctx context.Context, t *parser.Type, tree *parser.Thrift, cache c
 		return ty, err
 	default:
 		// check the cache
-		if ty, ok := cache[t.Name]; ok && ty.parseTarget == parseTarget {
+		// NOTICE: the root struct of a function is parsed differently (thrift base fields, body root),
+		// so its descriptor is neither taken from nor put into the cache of the nested uses
+		if ty, ok := cache[t.Name]; ok && ty.parseTarget == parseTarget && recursionDepth != 0 {
 			return ty.desc, nil
 		}
 
@@ -686,7 +688,7 @@ func parseType(ctx context.Context, t *parser.Type, tree *parser.Thrift, cache c
 				return nil, err
 			}
 		}
-		if st := ty.Struct(); st != nil {
+		if st := ty.Struct(); st != nil && recursionDepth != 0 {
 			cache[t.Name] = &compilingInstance{parseTarget: parseTarget, desc: ty}
 		}
 
